@@ -113,7 +113,7 @@ def run(ctx):
                 one(ctx, t["spec"], t["inputs"], runner, f"{t['template']}-{runner}", loop_ref=t["ref"])
             ctx.case({"t": t["template"], "N": N}, True, sample={"template": t["template"], "spec": t["spec"], "inputs": t["inputs"]} if N == 3 and obs else None)
     for N in range(0, 6):
-        for t in (loops.once_signal_loop(N, 1), loops.seeded_wait(1 + N % 3)):
+        for t in (loops.once_signal_loop(N, 1), loops.seeded_wait(1 + N % 3), loops.two_signal_loop(3 * N, N % 2, 1 + N % 2)):
             if ctx.shard[0] != sysn % ctx.shard[1]:
                 sysn += 1
                 continue
@@ -125,7 +125,10 @@ def run(ctx):
         rng = ctx.rng
         r = rng.random()
         if r < 0.2:
-            t = loops.signal_loop(rng.randint(0, 8), rng.randint(0, 3), rng.choice(["counter", "chat"]), rng.random() < 0.85, observers=rng.choice([0, 1, 2]))
+            if rng.random() < 0.3:
+                t = loops.two_signal_loop(rng.randint(0, 12), rng.randint(0, 3), rng.randint(1, 2))
+            else:
+                t = loops.signal_loop(rng.randint(0, 8), rng.randint(0, 3), rng.choice(["counter", "chat"]), rng.random() < 0.85, observers=rng.choice([0, 1, 2]))
             for runner in ("sync", "async"):
                 one(ctx, t["spec"], t["inputs"], runner, f"{t['template']}-{runner}", loop_ref=t["ref"])
             ctx.case({"t": t["template"], "in": t["inputs"], "c": str(t["ref"]["counts"])}, True)
